@@ -50,7 +50,7 @@ def endgroup():
 def fn(file, name, kind='impl', trait=None, self_ty=None, self_args=None, nth=None, module_=None,
        status='P', props=(), requires=(), ensures=(), decreases=None, loops=None, closures=None,
        proofs=(), rules=None, rename=None, no_pub=False, ret='r', attrs=(), generics_add=(),
-       where_add='', fid=None, mirror=None, note=None):
+       where_add='', fid=None, mirror=None, note=None, sig_pat=None):
     loc = {'kind': kind, 'name': name}
     if kind == 'impl':
         loc['trait'] = trait
@@ -70,9 +70,9 @@ def fn(file, name, kind='impl', trait=None, self_ty=None, self_args=None, nth=No
     ens = [list(e) if isinstance(e, (tuple, list)) else e for e in ensures]
     it = Item('fn', file=file, locator=loc, status=status, props=list(props), requires=list(requires),
               ensures=ens, decreases=decreases, loops=loops or {}, closures=closures or {},
-              proofs=list(proofs), rules=rules or {}, rename=rename, no_pub=no_pub or (PLAN.group is not None and ' for ' in PLAN.group),
+              proofs=list(proofs), rules=rules or {}, rename=rename, no_pub=no_pub or (PLAN.group is not None and (' for ' in PLAN.group or PLAN.group.startswith('pub trait'))),
               ret=ret, attrs=list(attrs), generics_add=list(generics_add), where_add=where_add,
-              fid=fid, module=PLAN.module, group=PLAN.group, mirror=mirror, note=note, name=rename or name)
+              fid=fid, module=PLAN.module, group=PLAN.group, mirror=mirror, note=note, name=rename or name, sig_pat=sig_pat or {})
     PLAN.items.append(it)
     PLAN.fns[fid] = it
     return it
